@@ -43,13 +43,21 @@ fn corpus() -> Vec<Item> {
         Item { pattern: r"(?:a|b)*(?=c)", backtrack_limit: Some(30), texts: ["aabx", "ababababababx", "ax"] },
         Item { pattern: r"(\w+)\s\1(?=!)", backtrack_limit: Some(6), texts: ["ab ab!", "abcdef abcdex abcdef?", "a b"] },
         Item { pattern: r"(?:(?>(a)|b)){2}", backtrack_limit: None, texts: ["ab", "ba", "bb"] },
+        // \G with an iteration that skips an empty match on one thread while another thread searches
+        // (state that the iterators hand to the search must be per call, not per Regex)
+        Item { pattern: r"\G\d*", backtrack_limit: None, texts: ["1 2", "1", "12 3"] },
+        Item { pattern: r"(?:\G|,)(\w*)", backtrack_limit: None, texts: [" ,,", "a,b", "x"] },
+        // one delegated piece with four capture groups (a slot buffer larger than a small inline array)
+        Item { pattern: r"(a)(b)(c)(d)(?=e)", backtrack_limit: None, texts: ["abcde", " abcde", "abcdx"] },
     ]
 }
 
 type Obs = Vec<Vec<String>>; // per thread, per call
 
 fn sequential(re: &Regex, texts: &[&str], calls: usize) -> Obs {
-    texts.iter().map(|t| (0..calls).map(|c| one_call(re, t, c)).collect()).collect()
+    // thread i starts with entry point i (so that with one call per thread one thread searches
+    // while the other iterates)
+    texts.iter().enumerate().map(|(tid, t)| (0..calls).map(|c| one_call(re, t, c + tid)).collect()).collect()
 }
 
 fn one_call(re: &Regex, text: &str, call: usize) -> String {
@@ -92,7 +100,7 @@ impl Pool {
                     let mut out = Vec::new();
                     for c in 0..job.calls {
                         let re: &Regex = &job.re.0;
-                        let r = catch_unwind(AssertUnwindSafe(|| one_call(re, job.text, c)));
+                        let r = catch_unwind(AssertUnwindSafe(|| one_call(re, job.text, c + tid)));
                         out.push(r.unwrap_or_else(|p| format!("PANIC: {}", engine::panic_msg(p))));
                     }
                     fancy_regex::verif::set_sched_hook(None);
@@ -347,8 +355,8 @@ fn run_mode(cx: &Ctx, serial: bool) -> Option<i32> {
             Ok(r) => ForceShare(r),
             Err(_) => continue,
         };
-        let expected: Vec<String> = item.texts.iter().map(|t| one_call(&re.0, t, 0)).collect();
-        let bad: std::sync::Mutex<Option<(usize, String)>> = std::sync::Mutex::new(None);
+        let expected: Vec<[String; 2]> = item.texts.iter().map(|t| [one_call(&re.0, t, 0), one_call(&re.0, t, 1)]).collect();
+        let bad: std::sync::Mutex<Option<(usize, usize, String)>> = std::sync::Mutex::new(None);
         // more threads than regex-automata's pool has stacks (8), so that non-owner threads share one
         let nthreads = 24usize;
         std::thread::scope(|s| {
@@ -361,11 +369,12 @@ fn run_mode(cx: &Ctx, serial: bool) -> Option<i32> {
                     for r in 0..stress_rounds {
                         let ti = (th + r) % 3;
                         let rr = local.as_ref().unwrap_or(re);
-                        let got = catch_unwind(AssertUnwindSafe(|| one_call(rr, item.texts[ti], 0))).unwrap_or_else(|p| format!("PANIC: {}", engine::panic_msg(p)));
-                        if got != expected[ti] {
+                        let kind = (th / 2 + r) % 2;
+                        let got = catch_unwind(AssertUnwindSafe(|| one_call(rr, item.texts[ti], kind))).unwrap_or_else(|p| format!("PANIC: {}", engine::panic_msg(p)));
+                        if got != expected[ti][kind] {
                             let mut b = bad.lock().unwrap();
                             if b.is_none() {
-                                *b = Some((ti, got));
+                                *b = Some((ti, kind, got));
                             }
                             return;
                         }
@@ -374,11 +383,11 @@ fn run_mode(cx: &Ctx, serial: bool) -> Option<i32> {
             }
         });
         stress_calls += (nthreads * stress_rounds) as u64;
-        if let Some((ti, got)) = bad.into_inner().unwrap() {
+        if let Some((ti, kind, got)) = bad.into_inner().unwrap() {
             t.violation(
                 2,
-                jobj! {"kind" => "c18-stress", "pattern" => item.pattern, "text" => item.texts[ti], "expected" => expected[ti].as_str(), "observed" => got.as_str(),
-                "summary" => format!("free-running stress (24 threads, sampling): /{}/ on {:?} returned {} instead of the sequential result {}", item.pattern, item.texts[ti], got, expected[ti])},
+                jobj! {"kind" => "c18-stress", "pattern" => item.pattern, "text" => item.texts[ti], "expected" => expected[ti][kind].as_str(), "observed" => got.as_str(),
+                "summary" => format!("free-running stress (24 threads, sampling): /{}/ on {:?} ({}) returned {} instead of the sequential result {}", item.pattern, item.texts[ti], if kind == 0 { "captures" } else { "find_iter" }, got, expected[ti][kind])},
             );
         }
     }
@@ -393,7 +402,8 @@ fn run_mode(cx: &Ctx, serial: bool) -> Option<i32> {
         t,
         Finish {
             rule: format!(
-                "static: the separate crate c18static asserting Regex: Send + Sync + Clone must compile. Dynamic (E3): for each of the 14 corpus patterns (VM programs with delegates, groups, look-around, backreference, atomic group, counted repeat, conditional, \\K; and whole-pattern hand-off), configurations (threads, preemption bound, calls per thread) {:?}, on one shared &Regex and on clones: every schedule with at most that many preemptions is executed on real OS threads (baton passing; scheduling points at run entry/exit and before every VM instruction, hook H4; switching away from a finished thread is free); oracle: every call (captures / find_iter) returns exactly its sequential result, no panic; the first schedule and every failing schedule are replayed and must reproduce; supplementary and labelled as sampling (not counted in the coverage): the same calls on 24 free-running threads; distinct_nontrivial = schedules of VM-compiled patterns",
+                "static: the separate crate c18static asserting Regex: Send + Sync + Clone must compile. Dynamic (E3): for each of the {} corpus patterns (VM programs with delegates, groups, look-around, backreference, atomic group, counted repeat, conditional, \\K, \\G; and whole-pattern hand-off), configurations (threads, preemption bound, calls per thread) {:?}, on one shared &Regex and on clones: every schedule with at most that many preemptions is executed on real OS threads (baton passing; scheduling points at run entry/exit and before every VM instruction, hook H4; switching away from a finished thread is free); oracle: every call (captures / find_iter; thread i starts with entry point i, so that one thread iterates while another searches) returns exactly its sequential result, no panic; the first schedule and every failing schedule are replayed and must reproduce; supplementary and labelled as sampling (not counted in the coverage): the same calls on 24 free-running threads; distinct_nontrivial = schedules of VM-compiled patterns",
+                corpus().len(),
                 configs
             ),
             exhaustive: !capped_any,
